@@ -152,7 +152,7 @@ func lawSig(law string, s *g1lib.Spec, raws []g1lib.Raw, vals ...any) string {
 }
 
 func apiLaws(r *core.Run, cat []*g1lib.Spec) {
-	per := r.N(200, 3000)
+	per := r.N(600, 6000)
 	const pool = 8
 	type job struct {
 		s *g1lib.Spec
